@@ -1054,13 +1054,15 @@ class World:
         sys.path.insert(0, MODULES)
         sys.meta_path.insert(0, self.host)
         self.fs.install()
+        # the module set is imported with its own stdout / stderr objects: whatever the code under test binds at
+        # import time (default arguments, module-level handles) is not the harness's own stream
         err = io.StringIO()
-        saved = sys.stderr
-        sys.stderr = err
+        saved = (sys.stdout, sys.stderr)
+        sys.stdout, sys.stderr = io.StringIO(), err
         try:
             self.peltool = importlib.import_module("pel.peltool.peltool")
         finally:
-            sys.stderr = saved
+            sys.stdout, sys.stderr = saved
         if not getattr(self.peltool, "__file__", "").startswith(MODULES):
             raise HarnessError("peltool imported from %r, expected below %s" % (self.peltool.__file__, MODULES))
         return self
@@ -1069,12 +1071,12 @@ class World:
         """purge + re-import inside the same world (used for the pristine twin)"""
         purge_modules()
         importlib.invalidate_caches()
-        err, saved_err = io.StringIO(), sys.stderr
-        sys.stderr = err
+        err, saved_err = io.StringIO(), (sys.stdout, sys.stderr)
+        sys.stdout, sys.stderr = io.StringIO(), err
         try:
             self.peltool = importlib.import_module("pel.peltool.peltool")
         finally:
-            sys.stderr = saved_err
+            sys.stdout, sys.stderr = saved_err
 
     def in_pristine_modules(self, fn):
         """run fn() with a freshly imported module set (same environment),
@@ -1085,12 +1087,12 @@ class World:
         self.fs.alarm_due = None
         purge_modules()
         importlib.invalidate_caches()
-        err, saved_err = io.StringIO(), sys.stderr
-        sys.stderr = err
+        err, saved_err = io.StringIO(), (sys.stdout, sys.stderr)
+        sys.stdout, sys.stderr = io.StringIO(), err
         try:
             self.peltool = importlib.import_module("pel.peltool.peltool")
         finally:
-            sys.stderr = saved_err
+            sys.stdout, sys.stderr = saved_err
         try:
             return fn()
         finally:
